@@ -444,6 +444,10 @@ class Stats:
         self.closer_runs = 0
         self.layout_runs = 0
         self.harness_errors = []
+        self.audit_groups = 0
+        self.audit_words = 0
+        self.audit_mismatches = 0
+        self.audit_examples = []
 
     def merge(self, o):
         self.states += o.states
@@ -465,7 +469,7 @@ class Stats:
 
 
 def bfs(scn, depth, oracles, layouts=(), layout_depth=3, max_states=None, deadline=None, commands=None,
-        order_seed=0, first_symbols=None, post=None, base_layout="space"):
+        order_seed=0, first_symbols=None, post=None, base_layout="space", audit=False):
     """Explore scenario `scn` = dict(name, prefix, sigma) to `depth` symbols after the prefix.
 
     oracles: list of functions(case) -> [violation]; layouts: extra layouts run for every new-state
@@ -489,6 +493,10 @@ def bfs(scn, depth, oracles, layouts=(), layout_depth=3, max_states=None, deadli
     seen.add((c0.obs.config, c0.pda.key()))
     st.states = 1
     t0 = time.time()
+    # abstraction audit (audit=True): no deduplication; members of one key must agree, for every symbol, on the
+    # verdict class and on the successor's key (one-step bisimulation)
+    succ = {}
+    keyof = {prefix: (c0.obs.config, c0.pda.key())}
     for d in range(1, depth + 1):
         nxt = []
         for w in frontier:
@@ -510,9 +518,22 @@ def bfs(scn, depth, oracles, layouts=(), layout_depth=3, max_states=None, deadli
                 live = obs.config is not None
                 ref_live = case.pda.live() and case.lerr is None
                 new = False
+                if audit:
+                    pk = keyof.get(w)
+                    if pk is not None:
+                        sk = (obs.config, case.pda.key()) if live else None
+                        succ.setdefault(pk, {}).setdefault(s, set()).add((obs.verdict, v.kind, sk))
+                        if live:
+                            keyof[w2] = sk
                 if live:
                     key = (obs.config, case.pda.key())
-                    if key not in seen:
+                    if audit:
+                        nxt.append(w2)
+                        if key not in seen:
+                            seen.add(key)
+                            st.states += 1
+                            st.max_depth = d
+                    elif key not in seen:
                         seen.add(key)
                         new = True
                         st.states += 1
@@ -569,6 +590,14 @@ def bfs(scn, depth, oracles, layouts=(), layout_depth=3, max_states=None, deadli
         frontier = nxt
         if not frontier:
             break
+    if audit:
+        st.audit_groups = len(succ)
+        st.audit_words = len(keyof)
+        st.audit_mismatches = sum(1 for m in succ.values() for outs in m.values() if len(outs) > 1)
+        for pk, m in succ.items():
+            for sym, outs in m.items():
+                if len(outs) > 1 and len(st.audit_examples) < 3:
+                    st.audit_examples.append("symbol %r after key %r: %r" % (sym, str(pk)[:80], sorted(str(o)[:60] for o in outs)))
     return st, viols
 
 
